@@ -91,6 +91,18 @@ CHECKS['C20'] = dict(
     technique='symbolic execution of the Python source with token-valued formatting + Z3 per branch; shapes enumerated',
 )
 
+CHECKS['C18'] = dict(
+    level='model_checking',
+    text='Symbolic execution of the real helper functions on symbolic poses that do NOT pass through the origin: each '
+         'defining relation of the property (reflection in the local XY plane + involution, mean position and geodesic '
+         'half rotation, lookAt position/proper rotation/z-axis, plane contains its points, metric axioms incl. the '
+         'triangle inequality via solver-checked lemmas, exact gap closing, evenly spaced straight path, twist to goal, '
+         'chain Jacobian = analytic, unit samplers, angle wrapping modulo 2*pi) is an obligation per path decided by normal '
+         'form + Z3. rotationFromVector / numericalJacobian accuracy are stated not-applicable clauses.',
+    design='5/C18',
+    technique='symbolic execution of the Python source + Z3 QF_NRA/NIRA per path; lemmas (cut rule); Exp/Log summary from C01',
+)
+
 NOT_APPLICABLE = {
 }
 
